@@ -632,12 +632,14 @@ def maxTransferLength (s : Scheme) (e b : Nat) : Nat :=
   if size > lenCap s then lenCap s else size
 
 /-- `Sender::add_object` (`FileDesc::new`) answers `Err`: transfer length above the scheme's maximum;
-    Reed-Solomon without parity symbol or with more than 256 symbols in a block (/repo 318df3e, d5e6485);
-    Raptor / RaptorQ with a source block above the code's K maximum (/repo 29615e2).
+    Reed-Solomon without parity symbol or with more than 255 symbols in a block (n <= 2^m - 1; /repo 318df3e,
+    d5e6485, d65a846); FEC Encoding ID 5: maximum source block length + parity beyond the 8-bit fields of its FEC OTI
+    (/repo d65a846); Raptor / RaptorQ with a source block above the code's K maximum (/repo 29615e2).
     `aLarge` = larger block size of the partition of `tl`. -/
 def refused (s : Scheme) (e b p tl aLarge : Nat) : Bool :=
   decide (tl > maxTransferLength s e b) ||
-  ((s == .rs || s == .rsus) && (p == 0 || decide (aLarge + p > 256))) ||
-  ((s == .raptor || s == .raptorq) && decide (aLarge > kMax s))
+  ((s == .rs || s == .rsus) && (p == 0 || decide (aLarge + p > 255))) ||
+  ((s == .raptor || s == .raptorq) && decide (aLarge > kMax s)) ||
+  (s == .rs && decide (b + p > 255))
 
 end Flute.Session
